@@ -6,9 +6,13 @@
   `quadQ M x` = xᵀ M x; `pairs l` = the unordered pairs of a list; `edgesOf h o` = the (edge ID, members)
   pairs of the requested order in `H.edges` order.  Index maps: `rowdict = {i: rows[i]}`.
 
+  Which theorems carry content and which are structural look-ups (the model's `incidence`, `tensorVal` already are
+  closed forms) is listed in harness/props/c12.manifest.json.  Helper lemmas live in XgiModel/C12/Lemmas*.lean.
+  The multi-order Laplacian is stated against `specMulti`, a textbook definition written from the counting
+  functions `degOf` / `shared` only (not from the model's loop).
+
   NOT proved here (reported, not weakened silently):
   * sparse = dense (a fact about scipy; exhibited by the correspondence runs only);
-  * the position of an index tuple in the flattened adjacency tensor (row-major order; correspondence only);
   * the normalised Laplacian is modelled through its rational pieces M = H W De⁻¹ Hᵀ and Dv; the real matrix
     `realLap r` = δ_ik − M_ik / sqrt(Dv_i·Dv_k) (what the harness compares the implementation with) is defined in
     Lemmas/…Real from those pieces.  Proved: symmetry of M and of `realLap`, M·1 = Dv for unit weights, the
@@ -18,12 +22,13 @@
     FULL-STRENGTH STATEMENT (property text): "for non-negative edge weights the matrix returned by
     normalized_hypergraph_laplacian(weighted=True) is the textbook matrix and positive semidefinite".  It is
     FALSE for the code (and hence for the model, which describes the code as it is): the code normalises with
-    the unweighted degree also when weighted=True (known finding C12 / normalized_hypergraph_laplacian, not
+    the unweighted degree also when weighted=True (known finding C12 / normalized_hypergraph_laplacian, classes
+    `normalized-not-psd@weighted-nonunit`, `normalized-not-textbook@weighted-nonunit` in known_findings/C12.json, not
     repaired because the repair contradicts the pinned test test_fix_647).  Hence the `_partial` theorems are
     restricted to unit weights; the negation of the full statement on the witness ({1,2} with weight 3) is
     the `example` block at the end.
 -/
-import XgiModel.C12.LemmasReal
+import XgiModel.C12.LemmasEntries
 
 set_option linter.unnecessarySeqFocus false
 
@@ -38,20 +43,6 @@ def degOf (h : Net) (o : Option Nat) (n : PyId) : Nat :=
   ((edgesOf h o).filter (fun p => decide (n ∈ p.2))).length
 /-- yᵀ (Dv − M) y for the pieces of the normalised Laplacian; xᵀ L x = congQuad r (x_i / sqrt(Dv_i)) -/
 def congQuad (r : Norm) (y : List ℚ) : ℚ := qdot r.dv (y.map (fun v => v * v)) - quadQ r.m y
-
-/-! ### requested order -/
-
-/-- an edge with k members has the requested order (`None` = every order) -/
-def orderOK : Option Nat → Nat → Prop
-  | none, _ => True
-  | some d, k => k = d + 1
-
-/-- `edgesOf` keeps exactly the edges of the requested order (all edges for `None`) -/
-theorem C12_edgesOf_mem (h : Net) (o : Option Nat) (p : PyId × List PyId) :
-    p ∈ edgesOf h o ↔ p ∈ h.edges ∧ orderOK o p.2.length := by
-  cases o with
-  | none => simp [edgesOf, orderOK]
-  | some d => simp [edgesOf, orderOK]
 
 /-! ### incidence matrix -/
 
@@ -89,10 +80,39 @@ theorem C12_incidence_spec (h : Net) (hwf : h.WF) (o : Option Nat) (i j : Nat) (
       simp only [hej, Option.map_some, Option.some.injEq] at he
       obtain ⟨hj, hpj⟩ := List.getElem?_eq_some_iff.mp hej
       have hp : p ∈ edgesOf h o := hpj ▸ List.getElem_mem hj
-      have hp' := (C12_edgesOf_mem h o p).mp hp
+      have hp' := (edgesOf_mem h o p).mp hp
       have hmem : h.members e = p.2 := he ▸ members_of_mem h hwf p hp'.1
       rw [ent_map_map _ _ _ i j hi hj, hni, hpj, hmem]
       exact ⟨rfl, List.mem_map.mpr ⟨p, hp'.1, he⟩, hp'.2⟩
+
+/-- with a `weight` callback (`weight(node, edge, H)`, integer-valued; `w n e` below): same index maps, and entry
+    (i, j) is the callback's value at (rows[i], cols[j]) when the node is a member of the edge, 0 otherwise -/
+theorem C12_incidence_weighted_spec (h : Net) (hwf : h.WF) (o : Option Nat) (w : PyId → PyId → Int) (i j : Nat)
+    (n e : PyId) (hn : (incidenceW h o w).rows[i]? = some n) (he : (incidenceW h o w).cols[j]? = some e) :
+    ent (incidenceW h o w).mat i j = (if n ∈ h.members e then w n e else 0) ∧
+      (incidenceW h o w).rows = (incidence h o).rows ∧ (incidenceW h o w).cols = (incidence h o).cols := by
+  by_cases hd : edgesOf h o = [] ∨ h.nodes = []
+  · rw [incidenceW_deg h o w hd] at hn; simp at hn
+  · push Not at hd
+    rw [incidence_nondeg h o hd.1 hd.2]
+    rw [incidenceW_nondeg h o w hd.1 hd.2] at hn he ⊢
+    refine ⟨?_, rfl, rfl⟩
+    simp only at hn he ⊢
+    obtain ⟨hi, hni⟩ := List.getElem?_eq_some_iff.mp hn
+    rw [List.getElem?_map] at he
+    cases hej : (edgesOf h o)[j]? with
+    | none => simp [hej] at he
+    | some p =>
+      simp only [hej, Option.map_some, Option.some.injEq] at he
+      obtain ⟨hj, hpj⟩ := List.getElem?_eq_some_iff.mp hej
+      have hp : p ∈ edgesOf h o := hpj ▸ List.getElem_mem hj
+      have hp' := (edgesOf_mem h o p).mp hp
+      have hmem : h.members e = p.2 := he ▸ members_of_mem h hwf p hp'.1
+      rw [ent_map_map _ _ _ i j hi hj, hni, hpj, hmem, ← he]
+      rfl
+
+/-- the default callback (constant 1) gives the unweighted incidence matrix -/
+theorem C12_incidence_default_weight (h : Net) (o : Option Nat) : incidenceW h o (fun _ _ => 1) = incidence h o := rfl
 
 /-! ### adjacency matrix (s ≥ 1) -/
 
@@ -308,7 +328,73 @@ theorem C12_multiorder_psd (h : Net) (hwf : h.WF) (orders : List Nat) (weights :
     (xs : List ℚ) (hx : xs.length = h.nodes.length) : 0 ≤ quadQ L.1 xs :=
   good_psd h.nodes hwf.1 L.1 (multiorder_good true h hwf orders weights rescale (fun _ => hw) L hL).1 xs hx
 
+/-! #### the textbook definition (Lucas, Cencetti, Battiston 2020), written independently of the model's loop
+
+  L^(multi) = Σ_d  γ_d / ⟨K^(d)⟩ · L^(d),   L^(d)_nm = d·K^(d)_n·δ_nm − A^(d)_nm   (each L^(d) divided by d when
+  `rescale_per_node`), the sum running over the (order, weight) pairs that have at least one edge of that order;
+  K^(d)_n = number of order-d edges containing n, A^(d)_nm = number of order-d edges containing both, ⟨K^(d)⟩ the mean
+  of K^(d) over all nodes.  `specMulti` is built from the counting functions `degOf` / `shared` only. -/
+
+/-- L^(d)_nm -/
+def specLap (h : Net) (d : Nat) (n m : PyId) : ℚ :=
+  if n = m then (d : ℚ) * (degOf h (some d) n : ℚ) else - (shared h (some d) n m : ℚ)
+/-- ⟨K^(d)⟩ -/
+def specMeanDeg (h : Net) (d : Nat) : ℚ :=
+  (h.nodes.map (fun n => (degOf h (some d) n : ℚ))).sum / (h.nodes.length : ℚ)
+/-- L^(multi)_nm -/
+def specMulti (h : Net) (orders : List Nat) (weights : List ℚ) (rescale : Bool) (n m : PyId) : ℚ :=
+  ((orders.zip weights).map (fun dw =>
+    if edgesOf h (some dw.1) = [] then 0
+    else dw.2 / specMeanDeg h dw.1 * (specLap h dw.1 n m * (if rescale then ((dw.1 : ℚ))⁻¹ else 1)))).sum
+
+/-- the multi-order Laplacian equals its textbook definition, entry by entry -/
+theorem C12_multiorder_entries (h : Net) (hwf : h.WF) (orders : List Nat) (weights : List ℚ) (rescale : Bool)
+    (L : QMat × List PyId) (hL : multiorder h orders weights rescale = .ok L) (i k : Nat)
+    (hi : i < h.nodes.length) (hk : k < h.nodes.length) :
+    ent L.1 i k = specMulti h orders weights rescale h.nodes[i] h.nodes[k] := by
+  rw [multiorder_entries h hwf.1 orders weights rescale L hL, ent_map_map _ _ _ i k hi hk]
+  unfold specMulti
+  congr 1
+  apply List.map_congr_left; intro dw _
+  unfold termF
+  by_cases he : edgesOf h (some dw.1) = []
+  · simp [(degreeVec_all_zero_iff h hwf dw.1).mpr he, he]
+  · have hz : ¬ (degreeVec h (some dw.1)).1.all (· == 0) = true := fun hc => he ((degreeVec_all_zero_iff h hwf dw.1).mp hc)
+    rw [if_neg hz, if_neg he]
+    have hmean : mean (degreeVec h (some dw.1)).1 = specMeanDeg h dw.1 := by
+      unfold mean specMeanDeg
+      rw [C12_degree_spec, cast_sum_map]
+      simp
+    have hlap : ((lapF (edgesOf h (some dw.1)) dw.1 h.nodes[i] h.nodes[k] : Int) : ℚ) = specLap h dw.1 h.nodes[i] h.nodes[k] := by
+      unfold lapF specLap
+      by_cases e : h.nodes[i] = h.nodes[k]
+      · simp only [e, if_true, cnt_self, deg_eq_length_filter, degOf]; push_cast; ring
+      · simp only [e, if_false, cnt_eq_length_filter, shared]; push_cast; ring
+    rw [hmean, hlap]
+    ring
+
 /-! ### normalised Laplacian: the rational pieces M = H W De⁻¹ Hᵀ and Dv -/
+
+/-- entries of the pieces: M_ik = Σ_e [n_i ∈ e][n_k ∈ e] · w(e)/|e| over the edges with the weights the code uses
+    (`weight` attribute, default 1, when `weighted`; 1 otherwise), and Dv_i = the (unweighted) degree of n_i —
+    the returned matrix is δ_ik − M_ik / sqrt(Dv_i·Dv_k) -/
+theorem C12_normalized_entries (h : Net) (hwf : h.WF) (weighted : Bool) (ws : List (Option ℚ)) (r : Norm)
+    (hr : normalized h weighted ws = .ok r) (i k : Nat) (hi : i < h.nodes.length) (hk : k < h.nodes.length) :
+    ent r.m i k = ((h.edges.zip (weightsOf h weighted ws)).map (fun pw =>
+        if h.nodes[i] ∈ pw.1.2 ∧ h.nodes[k] ∈ pw.1.2 then pw.2 / (pw.1.2.length : ℚ) else 0)).sum ∧
+    r.dv[i]? = some ((degOf h none h.nodes[i] : Nat) : ℚ) := by
+  obtain ⟨hm, hdv, _, _, _⟩ := normalized_eq h hwf weighted ws r hr
+  constructor
+  · rw [hm, ent_map_map _ _ _ i k hi hk]
+    unfold normF
+    congr 1
+    apply List.map_congr_left; intro pw _
+    unfold iq
+    by_cases h1 : h.nodes[i] ∈ pw.1.2 <;> by_cases h2 : h.nodes[k] ∈ pw.1.2 <;> simp [h1, h2]
+  · rw [hdv, List.getElem?_map, List.getElem?_eq_getElem hi]
+    simp only [Option.map_some, Option.some.injEq]
+    rw [deg_eq_length_filter]; simp [degOf, edgesOf]
+
 
 /-- M is symmetric (hence so is I − Dv^{-1/2} M Dv^{-1/2}); the index map is `H.nodes`; Dv is the degree -/
 theorem C12_normalized_symm (h : Net) (hwf : h.WF) (weighted : Bool) (ws : List (Option ℚ)) (r : Norm)
@@ -465,6 +551,39 @@ theorem C12_tensor_indices (h : Net) (d : Nat) (nm : Bool) (t : List Nat) :
   dsimp only
   split <;> simp [List.map_map, Function.comp_def, tuples_mem]
 
+/-- layout of the flattened array: it has N^(d+1) entries and the entry listed with index tuple `t` sits at the
+    row-major (C order) position Σ_j t_j·N^(d−j) — so `T[t_0, …, t_d]` of the numpy array of shape (N,)*(d+1) that the
+    harness flattens is the value the model lists with `t` -/
+theorem C12_tensor_position (h : Net) (d : Nat) (nm : Bool) (t : List Nat) (ht : t.length = d + 1)
+    (hlt : ∀ i ∈ t, i < h.nodes.length) :
+    ((tensor h d nm).1[flatIndex h.nodes.length t]?).map (·.1) = some t ∧
+      (tensor h d nm).1.length = h.nodes.length ^ (d + 1) := by
+  have key : (tensor h d nm).1.map (·.1) = tuples h.nodes.length (d + 1) := by
+    unfold tensor
+    dsimp only
+    split <;> simp [List.map_map, Function.comp_def]
+  constructor
+  · rw [← List.getElem?_map, key, ← ht]
+    exact tuples_getElem h.nodes.length t hlt
+  · rw [← List.length_map (f := (·.1)), key, tuples_length]
+
+/-- the index map is `H.nodes` in order (empty when there is no edge of order d or no node, where the tensor is all zero) -/
+theorem C12_tensor_index_map (h : Net) (d : Nat) (nm : Bool) :
+    (tensor h d nm).2 = if edgesOf h (some d) = [] ∨ h.nodes = [] then [] else h.nodes := by
+  unfold tensor
+  dsimp only
+  by_cases hd : edgesOf h (some d) = [] ∨ h.nodes = []
+  · have := (incidence_mat_isEmpty h (some d)).mpr hd
+    simp [this, hd]
+  · have hne : (incidence h (some d)).mat.isEmpty = false := by
+      cases hc : (incidence h (some d)).mat.isEmpty
+      · rfl
+      · exact absurd ((incidence_mat_isEmpty h (some d)).mp hc) hd
+    have hd' := hd
+    push Not at hd'
+    simp only [hne, Bool.false_eq_true, if_false, hd]
+    rw [incidence_nondeg h (some d) hd'.1 hd'.2]
+
 /-- an entry is non-zero exactly when its index tuple is a permutation of the members of an order-d edge;
     non-zero entries are 1 (1/d! when normalised) -/
 theorem C12_tensor_spec (h : Net) (d : Nat) (nm : Bool) (t : List Nat) (v : ℚ) (hm : (t, v) ∈ (tensor h d nm).1) :
@@ -546,6 +665,13 @@ example : laplacian demo 0 true = none := by
     simp only [demo, List.mem_cons, List.not_mem_nil, or_false] at hp
     rcases hp with rfl | rfl | rfl | rfl <;> exact ⟨by decide, by decide⟩)]
   exact ⟨rfl, rfl, by decide⟩
+example : (incidenceW demo (some 1) (fun n e => if n = .str "a" ∧ e = .int 2 then 7 else -2)).mat
+    = [[-2, 7], [-2, -2], [0, 0], [0, 0]] := by decide
+/-- order 1: two edges {a,b}, K = (2,2,0,0), ⟨K⟩ = 1; order 2: one edge {a,b,c}, K = (1,1,1,0), ⟨K⟩ = 3/4 -/
+example : specMulti demo [1, 2] [1, 1/2] false (.str "a") (.str "b") = -2 - 2/3 := by
+  simp [specMulti, specLap, specMeanDeg, degOf, shared, demo, edgesOf]; norm_num
+example : flatIndex 4 [1, 0, 2] = 18 := by decide
+example : ((tensor demo 2 false).1[flatIndex 4 [1, 0, 2]]?) = some ([1, 0, 2], 1) := by decide
 example : (multiorder demo [1, 2] [1] false matches .errValue) = true := by decide
 example : (multiorder demo [1, 2] [1, 1/2] true matches .ok _) = true := by decide
 
